@@ -1,4 +1,13 @@
-from rope.base import evaluate, exceptions, libutils, pynames, taskhandle, utils, worder
+from rope.base import (
+    ast,
+    evaluate,
+    exceptions,
+    libutils,
+    pynames,
+    taskhandle,
+    utils,
+    worder,
+)
 from rope.base.change import ChangeContents, ChangeSet
 from rope.refactor import occurrences, sourceutils
 
@@ -133,6 +142,7 @@ class _FindChangesForModule:
         self.last_modified = 0
         self.last_set = None
         self.set_index = None
+        self.is_augmented_set = False
         self.skip_start = skip_start
         self.skip_end = skip_end
 
@@ -150,6 +160,7 @@ class _FindChangesForModule:
                 )
             if occurrence.is_written():
                 assignment_type = self.worder.get_assignment_type(start)
+                self.is_augmented_set = assignment_type != "="
                 if assignment_type == "=":
                     result.append(self.setter + "(")
                 else:
@@ -182,9 +193,26 @@ class _FindChangesForModule:
             result.append(self.source[self.last_modified : self.last_set])
             set_value = "".join(result[self.set_index :]).strip()
             del result[self.set_index :]
+            if self.is_augmented_set and not self._is_operand(set_value):
+                # `a.x *= 1 + 2` means `a.x = a.x * (1 + 2)`
+                set_value = "(" + set_value + ")"
             result.append(set_value + ")")
             self.last_modified = self.last_set
             self.last_set = None
+
+    def _is_operand(self, code):
+        """Tell whether `code` can follow a binary operator as it stands"""
+        try:
+            node = ast.parse(code, mode="eval").body
+        except SyntaxError:
+            return False
+        parenthesized = node.col_offset > 0
+        return parenthesized or isinstance(
+            node,
+            (ast.Name, ast.Constant, ast.Call, ast.Attribute, ast.Subscript)
+            + (ast.List, ast.Dict, ast.Set, ast.ListComp, ast.DictComp)
+            + (ast.SetComp, ast.JoinedStr),
+        )
 
     def _is_assigned_in_a_tuple_assignment(self, occurrence):
         offset = occurrence.get_word_range()[0]
